@@ -777,3 +777,4 @@ M('rolllog-tail-dropped-but-not-put-back', ['C13'], RL, "                    rea
 M('cli-D78-shape-http-output-port-not-reserved', ['C12'], CLI, "        for output in outputs:\n            if isinstance(output, str) and not is_mq_addr(output) and (m := RE_URL_PORT.match(output)):  # Webvis' 'http://0.0.0.0:5550'\n                max_port = max(max_port, int(m.group(1)))\n\n", "", ['C12.R13'])
 M('cli-D78-shape-port-option-not-reserved', ['C12'], CLI, "        if isinstance(port := config.get(\"port\"), int) and not isinstance(port, bool):  # the http server port of Webvis / REST given as an option\n            max_port = max(max_port, port)\n", "", ['C12.R13'])
 M('zmq-D80-shape-empty-topic-accepted', ['C02', 'C03', 'C09'], Z, "            if '' in topicmsgs:  # its frame would be the same bytes as the topics message that closes a set: a receiver takes it for that, the set never completes and every set after it is lost as well\n                raise ValueError(\"a topic name can not be empty\")\n\n", "", ['C02.R5', 'C03.R11', 'C09.R14'])
+M('zmq-D82-shape-unlink-by-name', ['C06'], Z, "                        if os.stat(fnm).st_ino == self.ipc_inodes.get(fnm):  # still the file we bound, not the one of a new instance on this address\n                            os.unlink(fnm)\n", "                        os.unlink(fnm)\n", ['C06.R17'])
